@@ -195,7 +195,7 @@ def fs_property(ctx, pid, module, theorems, oracle, classify=None, needs_ref=Fal
 
 def check_C01(ctx):
     import oracles
-    fs_property(ctx, "C01", "C01", ["C01_rebuild_ignores_index", "C01_rebuild_prefix_stable", "C01_rows_rebuilt_are_live_rows", "C01_excluded_corners", "C01_demo", "C01_rows_rebuilt_are_live_rows_any_config", "C01_run_any_config", "C01_rebuild_any_config"], oracles.c01, classify=classify_update_unindexed)
+    fs_property(ctx, "C01", "C01", ["C01_rebuild_ignores_index", "C01_rebuild_prefix_stable", "C01_rows_rebuilt_are_live_rows", "C01_excluded_corners", "C01_demo", "C01_rows_rebuilt_are_live_rows_any_config", "C01_run_any_config", "C01_rebuild_any_config", "C01_rows_rebuilt_with_operations", "C01_rows_rebuilt_with_operations_any_config", "C01_operation_call_preserves_invariant", "C01_fs_histories_are_ok_hist", "C01_update_of_unindexed_name_refuted", "C01_with_operations_demo"], oracles.c01, classify=classify_update_unindexed)
     matrix_for(ctx, "C01", oracles.c01, "the visible tree of the running instance (names, attributes, contents) equals the tree of an index rebuilt from the tape")
 
 
@@ -333,7 +333,7 @@ def check_C06(ctx):
 def check_C07(ctx):
     import replay, collections
     ctx.trusted += M1_TRUST
-    coq_props(ctx, "C07", ["C07_replay_converges", "C07_replay_idempotent", "C07_rebuild_succeeds", "C07_forged_record_refuted", "C07_demo", "C07_demo_idempotent", "C07_replay_converges_any_config", "C07_replay_idempotent_any_config", "C07_rebuild_succeeds_any_config"])
+    coq_props(ctx, "C07", ["C07_replay_converges", "C07_replay_idempotent", "C07_rebuild_succeeds", "C07_forged_record_refuted", "C07_demo", "C07_demo_idempotent", "C07_replay_converges_any_config", "C07_replay_idempotent_any_config", "C07_rebuild_succeeds_any_config", "C07_replay_converges_with_operations", "C07_replay_idempotent_with_operations", "C07_rebuild_succeeds_with_operations", "C07_replay_converges_with_operations_any_config", "C07_replay_idempotent_with_operations_any_config", "C07_rebuild_succeeds_with_operations_any_config", "C07_with_operations_boundary"])
     data = replay.replay_stream(ctx)
     tie = replay.c07_tie(ctx, data)
     ctx.oblige("correspondence: Model/Replay.v evaluates in Coq on the observed replays", tie["ok"], tie["log"])
